@@ -120,15 +120,26 @@ type exchange struct {
 	target string
 	req    string
 	recv   *Event
-	end    *Event // tgt.resp (non-101), tgt.abort, tgt.upclosed
+	end    *Event // tgt.resp (non-101), tgt.abort, tgt.upclosed, or the proxy closing the connection
 	up     bool
+	upSeq  int // when the target wrote the 101
 }
 
 func exchangesOf(r *RunResult) []*exchange {
 	open := map[string]*exchange{}
+	byConn := map[string]*exchange{} // the exchange currently open on a proxy connection
 	var all []*exchange
 	for i := range r.H.Events {
 		e := &r.H.Events[i]
+		// From the proxy's side an exchange is over as soon as the proxy closes
+		// the connection, whether or not the (scheduled) fake-target handler has
+		// noticed yet.
+		if e.Kind == "net.close" && strings.HasPrefix(e.Info, "client-side") {
+			if x := byConn[e.Obj]; x != nil && x.end == nil {
+				x.end = e
+			}
+			continue
+		}
 		if e.Req == "" || e.Target == "" {
 			continue
 		}
@@ -137,11 +148,12 @@ func exchangesOf(r *RunResult) []*exchange {
 		case "tgt.recv":
 			x := &exchange{target: e.Target, req: e.Req, recv: e}
 			open[key] = x
+			byConn[e.Obj] = x
 			all = append(all, x)
 		case "tgt.resp":
 			if x := open[key]; x != nil {
 				if e.Status == 101 {
-					x.up = true
+					x.up, x.upSeq = true, e.Seq
 				} else if x.end == nil {
 					x.end = e
 				}
@@ -259,6 +271,14 @@ func checkC03(r *RunResult) []Violation {
 			}
 			deadline := drainStartT + c.Op.DrainTimeout
 			switch {
+			case x.up && x.upSeq > drainStartSeq:
+				// it was an ordinary in-flight request when draining began and was
+				// upgraded afterwards: it may run until the drain deadline
+				r.Probes["upgraded_during_drain"]++
+				if x.end == nil || x.end.T > deadline+z {
+					out = append(out, Violation{Prop: "C03", Clause: "cut-off-after-deadline", Sig: c.Op.Kind,
+						Msg: fmt.Sprintf("connection of %s on %s (upgraded after draining began) was still open after the drain deadline t=%v", x.req, x.target, deadline)})
+				}
 			case x.up:
 				// upgraded connections are closed as soon as draining begins
 				if x.end == nil || x.end.T > drainStartT+z {
@@ -274,7 +294,10 @@ func checkC03(r *RunResult) []Violation {
 					out = append(out, Violation{Prop: "C03", Clause: "in-flight-request-not-completed-normally", Sig: c.Op.Kind,
 						Msg: fmt.Sprintf("request %s was in flight on %s when draining began (t=%v) and its target finished at t=%v, before the drain deadline t=%v, but the client got status %d", x.req, x.target, drainStartT, x.end.T, deadline, q.Status)})
 				}
-			case x.end != nil && x.end.Kind == "tgt.abort":
+			case x.end != nil && (x.end.Kind == "tgt.abort" || x.end.Kind == "net.close") && x.end.T >= x.recv.T+r.Sc.HC.TargetTimeout-z && r.Sc.HC.TargetTimeout > 0:
+				// ended by the target timeout, not by the drain
+				r.Probes["ended_by_target_timeout"]++
+			case x.end != nil && (x.end.Kind == "tgt.abort" || x.end.Kind == "net.close"):
 				r.Probes["cut_off_at_deadline"]++
 				// cut off: only at the deadline, and with a 504
 				if x.end.T < deadline-z && q.Op.AbortAfter == 0 {
